@@ -216,6 +216,41 @@ fn inline_cycle_defects(max_n: usize, out: &mut Vec<Defect>) {
 fn assign_defects(thorough: bool, out: &mut Vec<Defect>) {
     let names = ["X", "Y", "Z"];
     for sigil in SIGILS {
+        // identifier policy: lower-case names that are also quotation keywords next to the names that carry the defect
+        for lookalike in [None, Some("q"), Some("quote")] {
+            if lookalike.is_none() {
+                continue;
+            }
+            let lk = lookalike.unwrap();
+            for kind in [AssignKind::Plain, AssignKind::Inline, AssignKind::Lambda] {
+                let tag = format!("{:?}/next-to-a-variable-named-{}", kind, lk);
+                let params = Pat::list(vec![Pat::n("A"), Pat::n(lk)]);
+                // a two-binding cycle whose expressions mention the lookalike variable before the back edge
+                let cyc = |broken: bool| Prog {
+                    sigil: Some(sigil),
+                    params: params.clone(),
+                    helpers: vec![],
+                    body: E::Assign(
+                        kind.clone(),
+                        vec![(Pat::n("X"), E::List(if broken { vec![E::v("A"), E::v(lk), E::v("Y")] } else { vec![E::v("A"), E::v(lk)] })), (Pat::n("Y"), E::List(vec![E::v(lk), E::v("X")]))],
+                        Box::new(E::List(vec![E::v("X"), E::v("Y")])),
+                    ),
+                };
+                out.push(Defect { class: format!("assign-cycle/{}", tag), text: cyc(true).text(), twin: cyc(false).text(), sigil, must_name: vec!["X".into(), "Y".into()] });
+                // a name bound twice: once inside a destructuring pattern that also binds the lookalike name before it
+                let dup = |broken: bool| Prog {
+                    sigil: Some(sigil),
+                    params: Pat::list(vec![Pat::n("A")]),
+                    helpers: vec![],
+                    body: E::Assign(
+                        kind.clone(),
+                        vec![(Pat::list(vec![Pat::n("P"), Pat::n(lk), Pat::n("X")]), E::List(vec![E::v("A"), E::v("A"), E::v("A")])), (Pat::n(if broken { "X" } else { "Y" }), E::List(vec![E::v("A")]))],
+                        Box::new(E::List(vec![E::v("X"), E::v("P"), E::v(lk)])),
+                    ),
+                };
+                out.push(Defect { class: format!("assign-duplicate/{}", tag), text: dup(true).text(), twin: dup(false).text(), sigil, must_name: vec!["X".into()] });
+            }
+        }
         for kind in [AssignKind::Plain, AssignKind::Inline, AssignKind::Lambda] {
             let nb = if thorough { 3 } else { 2 };
             // every dependency digraph over nb bindings: binding i depends on subset mask_i of the bound names
